@@ -15,7 +15,7 @@ func init() {
 		Title:       "No client input can panic, crash or wedge the gateway",
 		DesignRef:   "DESIGN.md §3 C10",
 		Technique:   "inventory of partial operations on request-reachable first-party functions: compiler-unproven bounds checks (Go prove/BCE listing) discharged by guards and library post-conditions, unchecked type assertions discharged by who-may-write arguments, reflect partial methods, client-sized allocations, exit/panic calls; plus containment of third-party parsers of client bytes behind a directly recovering defer (call-graph reachability)",
-		LevelText:   "Static: every index/slice expression in request-serving first-party code is either proven in-bounds by the Go compiler or discharged by a recognised guard, a library post-condition (copy/Read/EncodeRune counts, Split results, url.Values presence, HasPrefix) or a named reason whose condition is re-checked; every unchecked type assertion is matched with the static types of all writers of the asserted value; allocations sized by client data are bounded; no request-reachable path calls panic/os.Exit/log.Fatal except the entries justified by the settings table or the PAM stack; reflect walks are flagged; the gRPC NTLM method and every go-statement target reach third-party parsers of client bytes only through a function whose deferred closure calls recover() directly; the legacy IN leg starts the packet loop only with both transports set. Decides absence of these panic classes in first-party code and containment of dependency panics; not resource exhaustion or slow clients.",
+		LevelText:   "Static: every index/slice expression in request-serving first-party code is either proven in-bounds by the Go compiler or discharged by a recognised guard, a library post-condition (copy/Read/EncodeRune counts, Split results, url.Values presence, HasPrefix) or a named reason whose condition is re-checked; every unchecked type assertion is matched with the static types of all writers of the asserted value; allocations sized by client data are bounded; no request-reachable path calls panic/os.Exit/log.Fatal except the entries justified by the settings table or the PAM stack; reflect walks are flagged; the gRPC NTLM method and every go-statement target reach third-party parsers of client bytes only through a function whose deferred closure calls recover() directly; the legacy IN leg starts the packet loop only with both transports set. Decides absence of these panic classes in first-party code and containment of dependency panics; not resource exhaustion or slow clients. A pointer result of a call whose error the code tests is dereferenced only where that test protects it (a failing gRPC, parse or constructor call returns nil); client connections have one writer at a time (WritePacket only under the tunnel's write mutex).",
 		LevelNote:   "Trusted: the Go compiler's prove pass (bounds-check elimination), net/http recovering handler panics per connection (counted as 'closes that one connection', never as absence of panics), library post-conditions listed in partial.go. Known findings: kdcproxy.forward indexing and Gateway.setSendReceiveBuffers' reflection walk.",
 		Explanation: "C10/bounds maps the compiler's unproven-bounds listing to SSA instructions, keeps those in request-reachable functions (VTA call graph from handler roots) and discharges each. C10/assert, C10/alloc, C10/exit, C10/reflect, C10/div inventory the other partial operations. C10/contain walks the call graph from gRPC methods and go targets to third-party parsers. C10/hijack-nil checks the legacy handler's nil guards.",
 		Assumptions: []string{"panics inside dependencies are in scope only through containment", "net/http recovers panics of handler goroutines and closes that connection"},
